@@ -32,7 +32,8 @@ def FfiContract (mods : List (Nat × List FfiSig)) (ffi : Nat → Nat → List V
       | .ret v => Fit p v sig.ret
       | .fail => True)
 
-theorem constValue_fits (p : Program) (enums : List (Nat × List Nat)) (structs : List (Nat × List (Nat × Ty))) :
+theorem constValue_fits (p : Program) (enums : List (Nat × List Nat)) (structs : List (Nat × List (Nat × Ty)))
+    (hpe : p.enums = enums) :
     ∀ (fuel : Nat) (e : Expr) (v : Val), constValue enums structs fuel e = some v → noStructLit e = true → Fit p v v.vtype
   | 0, _, _, h, _ => by simp [constValue] at h
   | fuel + 1, e, v, h, hn => by
@@ -41,13 +42,16 @@ theorem constValue_fits (p : Program) (enums : List (Nat × List Nat)) (structs 
     all_goals (try (simp only [Option.some.injEq] at h; subst h; exact ⟨rfl, by simp [Val.wf]⟩))
     all_goals (try (simp only [Option.map_eq_some_iff] at h; obtain ⟨w, hw, rfl⟩ := h
                     simp only [noStructLit] at hn
-                    have ih := constValue_fits p enums structs fuel _ w hw hn
+                    have ih := constValue_fits p enums structs hpe fuel _ w hw hn
                     simp only [Val.vtype]
                     first | exact fit_some_mk ih | exact fit_ok_mk ih | exact fit_err_mk ih))
     · simp [noStructLit] at hn
     · split at h
       · cases h
-      · simp only [Option.map_eq_some_iff] at h; obtain ⟨i, _, rfl⟩ := h; exact fit_enum_mk
+      · rename_i k vs hfind
+        simp only [Option.map_eq_some_iff] at h; obtain ⟨i, hi, rfl⟩ := h
+        have hlt : i < vs.length := (List.getElem?_eq_some_iff.mp (indexOf_spec hi)).1
+        exact fit_enum_mk (q := (k, vs)) (by rw [hpe]; exact hfind) (Int.ofNat_zero_le i) (Int.ofNat_lt.mpr hlt)
 
 theorem lowerFun_funOk {cx : LCtx} {fd fd' : FunDef} (h : lowerFun cx fd = some fd')
     (hb : fragSs fd.body = true) (hr : fd.ret.neverFree = true) (hp : ∀ q ∈ fd.params, q.2.neverFree = true) :
@@ -116,11 +120,12 @@ theorem ctx_of_fold (cx : LCtx) (sp : SProgram) (p : Program)
     (hS : ∀ n d, cx.structDef n = some d → p.structDef n = some d)
     (hSnf : ∀ n d, p.structDef n = some d → ∀ q ∈ d, q.2.neverFree = true)
     (hSnd : ∀ n d, p.structDef n = some d → (d.map (·.1)).Nodup)
-    (hsigs : cx.sigs = builtinSigs ++ sp.funs.map (fun fd => (fd.name, fd.params, fd.ret))) (hF : FragProg sp) :
+    (hsigs : cx.sigs = builtinSigs ++ sp.funs.map (fun fd => (fd.name, fd.params, fd.ret))) (hF : FragProg sp)
+    (hE : cx.enums = p.enums) (hEnd : ∀ q ∈ p.enums, q.2.Nodup) :
     Ctx cx p ∧ ∀ f fd, p.funDef f = some fd → FunOk cx fd := by
   obtain ⟨l, hl, h1, h2⟩ := lowerFuns_find _ _ _ _ hfuns
   simp only [List.nil_append] at hl
-  refine ⟨⟨hG, hffi, hS, hSnf, hSnd, ?_, ?_⟩, ?_⟩
+  refine ⟨⟨hG, hffi, hS, hSnf, hSnd, ?_, ?_, hE, hEnd⟩, ?_⟩
   · intro f hb
     rw [hsigs, List.find?_append]
     have := builtinSigs_find f
@@ -160,14 +165,14 @@ theorem lowerProgram_ctx {mods ffi sp p} (h : lowerProgram mods ffi sp = some p)
   repeat' (split at h)
   all_goals (try (cases h; done))
   simp only [Option.some.injEq] at h; subst h
-  rename_i _ _ _ order _ _ cx1 hdef _ globals hgl hdup _ funs hfuns
-  have hinv : cx1.ffiMods = mods ∧ ∀ e ∈ cx1.structs, ∃ q, sp.structs.find? (·.1 == e.1) = some q ∧ q.2 = e.2 :=
+  rename_i henum _ _ order _ _ cx1 hdef _ globals hgl hdup _ funs hfuns
+  have hinv : (cx1.ffiMods = mods ∧ cx1.enums = sp.enums) ∧ ∀ e ∈ cx1.structs, ∃ q, sp.structs.find? (·.1 == e.1) = some q ∧ q.2 = e.2 :=
     foldl_bind_inv (fun (cx : LCtx) n => match sp.structs.find? (·.1 == n) with
       | Option.none => Option.some cx
       | Option.some (_, fs) =>
         if findDup (fs.map (·.1)) || !(fs.all (fun f => typeDefined cx f.2)) then Option.none
         else Option.some { cx with structs := cx.structs ++ [(n, fs)] })
-      (fun cx => cx.ffiMods = mods ∧ ∀ e ∈ cx.structs, ∃ q, sp.structs.find? (·.1 == e.1) = some q ∧ q.2 = e.2)
+      (fun cx => (cx.ffiMods = mods ∧ cx.enums = sp.enums) ∧ ∀ e ∈ cx.structs, ∃ q, sp.structs.find? (·.1 == e.1) = some q ∧ q.2 = e.2)
       (by
         intro a b a' ha hstep
         split at hstep
@@ -182,9 +187,9 @@ theorem lowerProgram_ctx {mods ffi sp p} (h : lowerProgram mods ffi sp = some p)
             · exact ha.2 e he
             · simp only [List.mem_singleton] at he; subst he
               exact ⟨_, hfind, rfl⟩)
-      order _ cx1 ⟨rfl, by intro e he; cases he⟩ hdef
-  have hfit : ∀ P : Program, ∀ g ∈ globals, Fit P g.2 g.2.vtype := by
-    intro P
+      order _ cx1 ⟨⟨rfl, rfl⟩, by intro e he; cases he⟩ hdef
+  have hfit : ∀ P : Program, P.enums = sp.enums → ∀ g ∈ globals, Fit P g.2 g.2.vtype := by
+    intro P hP
     exact foldl_bind_inv_mem (fun (gs : List (Nat × Val)) (g : Nat × Expr) =>
         match constValue sp.enums cx1.structs 64 g.2 with
         | Option.none => Option.none
@@ -203,11 +208,11 @@ theorem lowerProgram_ctx {mods ffi sp p} (h : lowerProgram mods ffi sp = some p)
             rcases List.mem_append.mp hg with hg | hg
             · exact ha g hg
             · simp only [List.mem_singleton] at hg; subst hg
-              exact constValue_fits P _ _ _ _ _ hv (hF.globals b hb))
+              exact constValue_fits P _ _ hP _ _ _ hv (hF.globals b hb))
       (by simp) hgl
-  refine ⟨_, ctx_of_fold _ sp _ hfuns ⟨rfl, hfit _⟩ ?_ ?_ ?_ hnd rfl hF⟩
+  refine ⟨_, ctx_of_fold _ sp _ hfuns ⟨rfl, hfit _ rfl⟩ ?_ ?_ ?_ hnd rfl hF hinv.1.2 ?_⟩
   · intro mi pi m fns sig hm hs
-    obtain ⟨h1, h2⟩ := hffi mi pi m fns sig (by rw [← hinv.1]; exact hm) hs
+    obtain ⟨h1, h2⟩ := hffi mi pi m fns sig (by rw [← hinv.1.1]; exact hm) hs
     exact ⟨h1, h2 _⟩
   · intro n d hd
     simp only [LCtx.structDef, Option.map_eq_some_iff] at hd
@@ -220,6 +225,10 @@ theorem lowerProgram_ctx {mods ffi sp p} (h : lowerProgram mods ffi sp = some p)
     simp only [Program.structDef, Option.map_eq_some_iff] at hd
     obtain ⟨s0, hs0, rfl⟩ := hd
     exact hF.fields s0 (List.mem_of_find?_eq_some hs0) q hq
+  · intro q hq
+    simp only [Bool.or_eq_true, not_or, Bool.not_eq_true] at henum
+    have := List.any_eq_false.mp henum.2 q hq
+    exact findDup_nodup _ (by simpa using this)
 
 /-- **typecheck_sound** on the fragment: a call of a declared function of an accepted program
 with arguments fitting its parameter types is never stuck, never ends in a stray `return`, and a
